@@ -1056,3 +1056,27 @@ pub fn split_at_too_far_panics(s: &[u8], k: usize) -> u8 {
     let (head, _tail) = s.split_at(k);
     head.len() as u8
 }
+
+// an element of chunks_exact(n) has n elements
+pub fn chunk_elem_index_safe(s: &[u8]) -> Vec<i16> {
+    let mut v = Vec::new();
+    for pair in s.chunks_exact(2) {
+        v.push(i16::from_le_bytes([pair[0], pair[1]]));
+    }
+    v
+}
+pub fn chunk_elem_index_panics(s: &[u8]) -> Vec<i16> {
+    let mut v = Vec::new();
+    for pair in s.chunks_exact(2) {
+        v.push(i16::from_le_bytes([pair[1], pair[2]]));
+    }
+    v
+}
+pub fn chunks_not_exact_index_panics(s: &[u8]) -> Vec<i16> {
+    let mut v = Vec::new();
+    // `chunks` may yield a shorter last chunk
+    for pair in s.chunks(2) {
+        v.push(i16::from_le_bytes([pair[0], pair[1]]));
+    }
+    v
+}
